@@ -13,10 +13,11 @@ Property theorems only; helper lemmas are in EdpVerif/Lemmas/Control.lean.
 namespace Edp.Props.C08
 open Edp Edp.Control
 
-/-! ## full-strength statements (what the property asks of a table) -/
+/-! ## what the property asks of a table -/
 
-/-- every control tuple the protocol allows (`Spec.shape`: headed by `Integer 0..255`, and an unlink id that
-denotes an integer below 2^64) parses, and both serialisers give back a tuple denoting the same value -/
+/-- every control tuple the protocol allows (`Spec.shape`: headed by `Integer 0..255`; an unlink id stands for an
+integer `0 ≤ id < 2^64` — the one exception the property itself makes) parses, and both serialisers give back a
+tuple denoting the same value -/
 def Lossless (tbl : Table) : Prop :=
   ∀ t, Spec.shape t = .control →
     ∃ m u, parse tbl t = .ok m ∧ toTerm tbl m = some u ∧ intoTerm tbl m = some u ∧ u.den = t.den
@@ -44,14 +45,19 @@ def wire (t : Term) : Term :=
 
 theorem C08_table_ok : TableOK Gen.controlTable := by decide
 
-/-! ## round trip, table-generic -/
+/-- the element the library reads as an unlink id is the protocol's `Id` element of that operation -/
+theorem C08_ids_at_protocol_position :
+    ∀ a ∈ Gen.controlTable.fromArms, Spec.idsAtSpec Gen.controlTable a = true := by decide
 
-/-- For EVERY consistent table: a tuple headed by `Integer 0..255` parses, and `to_term` and `into_term` of the
-result both give back exactly that tuple — whether or not the tag is one the table knows.  Guard (`idGuard`): an
-element read as a `u64` unlink id is `Integer(v)` with `0 ≤ v < 2^63`, i.e. any non-negative `i64`. -/
-theorem C08_roundtrip_partial (tbl : Table) (h : TableOK tbl) (t : Term) (ht : tagged t = true)
+/-! ## round trip -/
+
+/-- For EVERY consistent table: a tuple headed by `Integer 0..255` parses — whether or not the tag is one the table
+knows — and `to_term` and `into_term` of the result give the same tuple, which denotes the same value as the input.
+`idGuard` is the property's own exception: an element read as an unlink id stands for an integer `0 ≤ id < 2^64`
+(as `Integer` or `BigInt`, minimal digits or not). -/
+theorem C08_roundtrip (tbl : Table) (h : TableOK tbl) (t : Term) (ht : tagged t = true)
     (hg : idGuard tbl t = true) :
-    ∃ m, parse tbl t = .ok m ∧ toTerm tbl m = some t ∧ intoTerm tbl m = some t := by
+    ∃ m u, parse tbl t = .ok m ∧ toTerm tbl m = some u ∧ intoTerm tbl m = some u ∧ u.den = t.den := by
   unfold tagged at ht
   split at ht
   · rename_i i rest
@@ -59,52 +65,35 @@ theorem C08_roundtrip_partial (tbl : Table) (h : TableOK tbl) (t : Term) (ht : t
     exact roundtrip h i rest ht.1 ht.2 hg
   · simp at ht
 
-example : tagged (.tuple [.int 35, .int 7, .nil, .nil]) = true ∧
-    idGuard Gen.controlTable (.tuple [.int 35, .int 7, .nil, .nil]) = true := by decide
+example : tagged (.tuple [.int 35, .big false [255, 255, 255, 255, 255, 255, 255, 255, 0, 0], .nil, .nil]) = true ∧
+    idGuard Gen.controlTable (.tuple [.int 35, .big false [255, 255, 255, 255, 255, 255, 255, 255, 0, 0], .nil, .nil]) = true := by
+  decide
 
-/-- the only tuples headed by `Integer 0..255` that a consistent table rejects are those whose unlink id is not
-a non-negative `Integer` -/
+/-- the only tuples headed by `Integer 0..255` that a consistent table rejects are those the property excludes -/
 theorem C08_rejected_only_for_bad_id (tbl : Table) (h : TableOK tbl) (t : Term) (ht : tagged t = true)
     (e : PErr) (he : parse tbl t = .error e) : idGuard tbl t = false := by
   cases hg : idGuard tbl t with
   | false => rfl
   | true =>
-    obtain ⟨m, hm, _⟩ := C08_roundtrip_partial tbl h t ht hg
+    obtain ⟨m, u, hm, _⟩ := C08_roundtrip tbl h t ht hg
     rw [hm] at he
     cases he
 
 example : tagged (.tuple [.int 35, .int (-1), .nil, .nil]) = true ∧
-    parse Gen.controlTable (.tuple [.int 35, .int (-1), .nil, .nil]) = .error .err := ⟨by decide, rfl⟩
+    parse Gen.controlTable (.tuple [.int 35, .int (-1), .nil, .nil]) = .error .err ∧
+    parse Gen.controlTable (.tuple [.int 36, .big false [0, 0, 0, 0, 0, 0, 0, 0, 1], .nil, .nil]) = .error .err :=
+  ⟨by decide, rfl, rfl⟩
 
-/-- the same for the library's table, stated against the protocol's notion of a control tuple; the guard is
-what separates it from `Lossless` -/
-theorem C08_lossless_partial (t : Term) (hs : Spec.shape t = .control) (hg : idGuard Gen.controlTable t = true) :
-    ∃ m u, parse Gen.controlTable t = .ok m ∧ toTerm Gen.controlTable m = some u ∧
-      intoTerm Gen.controlTable m = some u ∧ u.den = t.den := by
-  have ht : tagged t = true := by
-    unfold Spec.shape at hs
-    split at hs
-    · rename_i i rest
-      split at hs
-      · rename_i hc; simp [tagged, hc]
-      · cases hs
-    · cases hs
-  obtain ⟨m, h1, h2, h3⟩ := C08_roundtrip_partial _ C08_table_ok t ht hg
-  exact ⟨m, t, h1, h2, h3, rfl⟩
+/-- FULL statement for the library's table: every control tuple the protocol allows parses and re-serialises (both
+serialisers) to a tuple of the same value -/
+theorem C08_lossless : Lossless Gen.controlTable := by
+  intro t hs
+  obtain ⟨ht, hg⟩ := idGuard_of_shape C08_table_ok C08_ids_at_protocol_position t hs
+  exact C08_roundtrip _ C08_table_ok t ht hg
 
-example : Spec.shape (.tuple [.int 36, .int 9223372036854775807, .atom [97], .nil]) = .control ∧
-    idGuard Gen.controlTable (.tuple [.int 36, .int 9223372036854775807, .atom [97], .nil]) = true := by decide
-
-/-- DEFECT (unlink ids are read with `as_integer()`, which only accepts the small-integer variant):
-`{35, 4294967296, [], []}` with the id in the form the decoder produces for it (`BigInt`) is a control tuple the
-protocol allows, and `from_term` rejects it. -/
-theorem C08_not_lossless : ¬ Lossless Gen.controlTable := by
-  intro h
-  obtain ⟨m, u, hp, _⟩ := h (.tuple [.int 35, .big false [0, 0, 0, 0, 1], .nil, .nil]) (by decide)
-  have : parse Gen.controlTable (.tuple [.int 35, .big false [0, 0, 0, 0, 1], .nil, .nil]) = .error .err := by
-    rfl
-  rw [this] at hp
-  cases hp
+example : Spec.shape (.tuple [.int 36, .big false [0, 0, 0, 0, 0, 0, 0, 128], .atom [97], .nil]) = .control ∧
+    Spec.shape (.tuple [.int 34, .nil, .nil, .nil]) = .control ∧
+    Spec.shape (.tuple [.int 200, .nil]) = .control := by decide
 
 /-- anything else — a non-tuple, the empty tuple, a head that is not `Integer 0..255` — is rejected with an error
 (never a panic), for every table -/
@@ -126,84 +115,36 @@ theorem C08_into_eq_to (tbl : Table) (h : TableOK tbl) (m : Msg) : intoTerm tbl 
 
 /-! ## structured messages survive the wire -/
 
-/-- For EVERY consistent table and every wire `w` that maps tuples element-wise and returns `Integer 0..255`
-unchanged (`Transparent`; for `decode ∘ encode` that is C01's round trip): every structured message serialises
-(both serialisers), and parsing what comes back yields the same variant with the wire image of every field — no
-field dropped, reordered or altered.  Guard (`IdsSurvive`): a `u64` id is below 2^63 and its `Integer` comes back
-from `w` as the same `Integer`. -/
-theorem C08_structured_survives_partial (tbl : Table) (h : TableOK tbl) (w : Term → Term) (hw : Transparent w)
-    (v : String) (fs : List (String × FVal)) (hm : wellTyped tbl (.known v fs) = true)
-    (hid : IdsSurvive w (.known v fs)) :
-    ∃ t m', toTerm tbl (.known v fs) = some t ∧ intoTerm tbl (.known v fs) = some t ∧
-      parse tbl (w t) = .ok m' ∧ Msg.Same m' (Msg.mapTerms w (.known v fs)) :=
-  serialise_wire_parse h w hw v fs hm hid
+/-- For EVERY consistent table and every wire `w` that maps tuples element-wise, returns `Integer 0..255` unchanged
+and returns an integer as an integer of the same value (`Transparent`; for `decode ∘ encode` that is C01's round
+trip): every structured message, with any `u64` id, serialises (both serialisers), and parsing what comes back yields
+the same variant with the wire image of every field and the same id — no field dropped, reordered or altered. -/
+theorem C08_structured_survives (tbl : Table) (h : TableOK tbl) (w : Term → Term) (hw : Transparent w) :
+    Survives tbl w :=
+  fun v fs hm => serialise_wire_parse h w hw v fs hm
 
-example : Transparent id ∧
-    wellTyped Gen.controlTable (.known "UnlinkId" [("id", .uid 7), ("from_pid", .term .nil), ("to_pid", .term .nil)]) = true ∧
-    IdsSurvive id (.known "UnlinkId" [("id", .uid 7), ("from_pid", .term .nil), ("to_pid", .term .nil)]) := by
-  refine ⟨⟨fun l => by simp, fun _ _ _ => rfl⟩, by decide, ?_⟩
-  intro f n hl
-  simp only [lookup] at hl
-  split at hl
-  · simp at hl; subst hl; exact ⟨by decide, rfl⟩
-  · split at hl
-    · simp at hl
-    · split at hl <;> simp at hl
+example : Transparent id := ⟨fun l => by simp, fun _ _ _ => rfl, fun _ _ h => h⟩
 
-/-- DEFECT (ids are written with `as i64`): `UnlinkId { id: u64::MAX, .. }` serialises to `{35, -1, _, _}`, which
-`from_term` rejects — already in memory, before any wire. -/
-theorem C08_not_survives_in_memory : ¬ Survives Gen.controlTable id := by
-  intro h
-  obtain ⟨t, m', ht, _, hp, _⟩ := h "UnlinkId"
-    [("id", .uid 18446744073709551615), ("from_pid", .term .nil), ("to_pid", .term .nil)] (by decide)
-  have h1 : toTerm Gen.controlTable (.known "UnlinkId"
-      [("id", .uid 18446744073709551615), ("from_pid", .term .nil), ("to_pid", .term .nil)])
-      = some (.tuple [.int 35, .int (-1), .nil, .nil]) := by rfl
-  rw [h1] at ht
-  injection ht with ht
-  subst ht
-  have : parse Gen.controlTable (id (.tuple [.int 35, .int (-1), .nil, .nil])) = .error .err := by rfl
-  rw [this] at hp
-  cases hp
+/-- in memory (`w = id`) for the library's table: `from_term (to_term m)` is `m`, for every structured message -/
+theorem C08_survives_in_memory : Survives Gen.controlTable id :=
+  C08_structured_survives _ C08_table_ok id ⟨fun l => by simp, fun _ _ _ => rfl, fun _ _ h => h⟩
 
-/-- DEFECT (same root cause as `C08_not_lossless`, seen from the sender's side): `UnlinkIdAck { id: 2^31, .. }`
-serialises to `{36, 2147483648, _, _}`; the codec encodes 2^31 as SMALL_BIG_EXT and decodes that to `BigInt`, and
-`from_term` rejects the result.  `wire` is the codec *model* (`Impl.encode`, `Impl.decode`). -/
-theorem C08_not_survives_wire : ¬ Survives Gen.controlTable wire := by
-  intro h
-  obtain ⟨t, m', ht, _, hp, _⟩ := h "UnlinkIdAck"
-    [("id", .uid 2147483648), ("from_pid", .term .nil), ("to_pid", .term .nil)] (by decide)
-  have h1 : toTerm Gen.controlTable (.known "UnlinkIdAck"
-      [("id", .uid 2147483648), ("from_pid", .term .nil), ("to_pid", .term .nil)])
-      = some (.tuple [.int 36, .int 2147483648, .nil, .nil]) := by rfl
-  rw [h1] at ht
-  injection ht with ht
-  subst ht
-  have : parse Gen.controlTable (wire (.tuple [.int 36, .int 2147483648, .nil, .nil])) = .error .err := by rfl
-  rw [this] at hp
-  cases hp
+example : wellTyped Gen.controlTable (.known "UnlinkId"
+    [("id", .uid 18446744073709551615), ("from_pid", .term .nil), ("to_pid", .term .nil)]) = true := by decide
+
+-- (the former failing inputs 2^31, 2^63, 2^64-1 are exercised through the real codec and the codec model by the
+-- harness on every run: `c08wire` lines)
 
 /-! ## numbering -/
 
-/-- every operation the library implements, except ALIAS_SEND_TT, has the protocol's tag number, arity and element
-order, and reads exactly the `Id` element as an integer (SPAWN_REQUEST(_TT): the layout with ArgList inside the
-tuple is accepted, see Spec/Control.lean) -/
-theorem C08_numbering_partial :
-    ∀ a ∈ Gen.controlTable.fromArms, a.variant ≠ "AliasSendTt" → Spec.agrees Gen.controlTable a = true := by decide
-
-example : ∃ a ∈ Gen.controlTable.fromArms, a.variant ≠ "AliasSendTt" := by decide
-
-/-- DEFECT: `ControlMessageType::AliasSendTt = 38`; the protocol's ALIAS_SEND_TT is 34 -/
-theorem C08_not_numbered : ¬ Numbered Gen.controlTable := by
-  intro h
-  have := h { ty := "AliasSendTt", arity := 4, variant := "AliasSendTt",
-              fields := [("from_pid", .elem 1), ("alias", .elem 2), ("trace_token", .elem 3)] } (by decide)
-  revert this
+/-- FULL statement: every operation the library implements has the protocol's tag number, arity and element order,
+and reads exactly the `Id` element as an integer (SPAWN_REQUEST(_TT): the layout with ArgList inside the tuple is
+accepted, see Spec/Control.lean) -/
+theorem C08_numbered : Numbered Gen.controlTable := by
+  unfold Numbered
   decide
 
-/-- the excluded row differs from the protocol in the tag number only: 38 where the protocol has 34 -/
-theorem C08_alias_send_tt_is_38 :
-    enumDisc Gen.controlTable "AliasSendTt" = some 38 ∧ (Spec.findOp "ALIAS_SEND_TT").map (·.tag) = some 34 := by
+example : ∃ a ∈ Gen.controlTable.fromArms, a.variant = "AliasSendTt" ∧ enumDisc Gen.controlTable a.ty = some 34 := by
   decide
 
 /-- every operation of the protocol's table is implemented by some variant of the library -/
